@@ -868,13 +868,21 @@ class BaseTocTreeDirective(tinydocutils.directives.Directive):
         else:
             target = child
 
-        if not title and (util.PAT_URI.match(target) or ref_project):
+        # target is None exactly when the entry is a project reference
+        if not title and (target is None or util.PAT_URI.match(target)):
             # If entry is surrounded by <> tags, assume it is a URL and log an error.
             err = "toctree nodes with URLs or project references must include titles"
             error_node = self.state.document.reporter.error(err, line=self.lineno)
             return None, [error_node]
 
-        parsed = urllib.parse.urlparse(target)
+        try:
+            parsed = urllib.parse.urlparse(target)
+        except ValueError as exc:
+            # e.g. "Invalid IPv6 URL" for an unbalanced bracket in the host
+            error_node = self.state.document.reporter.error(
+                f"Invalid toctree entry: {exc}", line=self.lineno
+            )
+            return None, [error_node]
         if parsed.scheme:
             url = target
         else:
